@@ -51,7 +51,7 @@ def storage_routing(ctx):
             continue
         seen.add(key)
         ctx.report({"kind": "storagerouting-" + law, "model": "StorageRouting", "variant": variant,
-                    "zeroflow": bool(ev.get("zeroflow")), "residclass": ev.get("residclass"), "atdead": bool(ev.get("atdead"))},
+                    "zeroflow": bool(ev.get("zeroflow")), "residclass": ev.get("residclass"), "atdead": bool(ev.get("atdead")), "qconv": bool(ev.get("qconv"))},
                    "StorageRouting violates the %s law at timestep %s (params bias,k,m,area,dead,dt = %s): ranks %s"
                    % (law, ev.get("t"), raw, {kk: ev[kk] for kk in ("resid", "tolb", "out", "sto", "rel", "tolr")}), {"event": ev, "case": c})
     # binding self-test: a perturbed residual must be reported
